@@ -49,7 +49,8 @@ def expand (path sync flush : List Nat) : List Step :=
 def wellRead : Bool :=
   SyncOrder.parseError.isNone &&
   !(SyncOrder.backendSync ++ SyncOrder.aofFlush ++ SyncOrder.extendingCommit ++
-      SyncOrder.headerExtendingCommit ++ SyncOrder.processBlockSingle).contains 0
+      SyncOrder.headerExtendingCommit ++ SyncOrder.processBlockSingle ++ SyncOrder.checkCompact ++
+      SyncOrder.aofReplace ++ SyncOrder.txhashsetCompact ++ SyncOrder.chainCompact).contains 0
 
 /-- **`blockSteps` is the source's order**: header commit path, the header-head commit, the body
 commit path, and the outer `batch.commit()` AFTER `pipe::process_block` -/
@@ -101,6 +102,33 @@ then the truncation, then the append, then the fsync (`Model/CrashAof.lean` `Aof
 theorem backend_and_file_order :
     SyncOrder.backendSync = [1, 2, 3, 4] ∧ dedup SyncOrder.aofFlush = [10, 11, 12, 13] ∧
     SyncOrder.extendingCommit = [20, 21, 22, 23] ∧ SyncOrder.headerExtendingCommit = [20, 24] := by
+  decide
+
+/-! ### compaction path -/
+
+/-- one `check_compact` of backend `b` (50 output, 51 range proof): `replace_with_tmp` (42 hash, 43 data)
+= `AppendOnlyFile::replace` = remove (45) then rename (46); prune list flush (4) and leaf set flush (44)
+are one rename each; writing the temporary copies (40, 41) changes no file of the state -/
+def compactBackend (b : Nat) (cc rep : List Nat) : List CStep :=
+  cc.flatMap fun c =>
+    if c = 42 then rep.filterMap fun r =>
+      if r = 45 then some (if b = 50 then CStep.outHashRemove else CStep.rpHashRemove)
+      else if r = 46 then some (if b = 50 then CStep.outHashRename else CStep.rpHashRename) else none
+    else if c = 43 then rep.filterMap fun r =>
+      if r = 45 then some (if b = 50 then CStep.outDataRemove else CStep.rpDataRemove)
+      else if r = 46 then some (if b = 50 then CStep.outDataRename else CStep.rpDataRename) else none
+    else if c = 4 then [if b = 50 then CStep.outPrunRename else CStep.rpPrunRename]
+    else if c = 44 then [if b = 50 then CStep.outLeafRename else CStep.rpLeafRename]
+    else []
+
+/-- **`compactSteps` is the source's order**: `Chain::compact` = `TxHashSet::compact` (output backend,
+then range-proof backend, each `check_compact`), then ONE `batch.commit()` after
+`remove_historical_blocks` -/
+theorem compactSteps_is_source_order :
+    wellRead = true ∧ SyncOrder.chainCompact = [52, 53, 31] ∧
+    compactSteps =
+      SyncOrder.txhashsetCompact.flatMap (fun b => compactBackend b SyncOrder.checkCompact SyncOrder.aofReplace)
+        ++ [.compactCommit] := by
   decide
 
 end GV.Props.C09SyncOrder
